@@ -111,3 +111,25 @@ REGISTRY["C14"] = {
                             "reference.cases_recomputed": 10000,
                             "reference.cases_touching_boundary_word": 500},
 }
+
+# ------------------------------------------------------------------------------------------- C16
+REGISTRY["C16"] = {
+    "level": "exploration",
+    "technique": "runtime oracle over generated tuple pairs: Ord of encodings vs element-wise Ord of tuples, prefix-extension ordering, decode round trip; hostile-bytes decoder monitor (no panic)",
+    "level_text": ("Exploration: pairs generated to agree on a prefix and differ at a width/sign/escape boundary, "
+                   "both formats, both directions, derived TypedTupleKey; decoders run on random and mutated bytes."),
+    "level_note": "Trusted: Rust's Ord on integers/strings/bytes as the tuple order; the generators' boundary classes.",
+    "rule": ("pair case = schema of 1-4 elements over {unit,u32,u64,i32,i64,string(,bytes)} x {asc,desc}, tuple a, "
+             "tuple b that copies a prefix of a and then takes a neighbouring value (+-1, sign flip, bit flip, "
+             "string prefix/extension with NUL / 0xff / max code points), extension x; checks cmp(enc a, enc b) = "
+             "cmp(a,b), enc(a) < enc(a+x) < enc(b) when a<b, decode(enc)=tuple. hostile case = random bytes / "
+             "truncation / bit flip / insertion / runs of continuation bytes fed to every decoder. Non-trivial = "
+             "pair shares a non-empty prefix and differs later (or is a 1-tuple), or hostile input; distinct = hash of the case."),
+    "assumptions": [],
+    "jobs": lambda tier: [
+        job("pairs", "c16", shards=16, cases=q(tier, 60000, 3000000)),
+    ] + ([job("pairs-release", "c16", flavour="release", shards=16, cases=3000000)] if tier == "thorough" else []),
+    "floors": lambda tier: {"distinct_nontrivial": 100000, "pairs.tuple_key": 100000, "pairs.tuple_key2": 100000,
+                            "pairs.derived": 30000, "hostile_inputs": 30000,
+                            "pairs.common_prefix_then_boundary": 50000},
+}
